@@ -48,10 +48,12 @@ def diff_pass(c, L):
 
 
 def diff_post(c):
-    t = [e for e in c.trace if e[0] in ('draw', 'yield', 'loop-head')]
-    # the first value is drawn before the loop and not yielded
-    first = [e[0] for e in t[:2]]
-    return z3.BoolVal(first in (['draw', 'loop-head'], ['draw'], []) or (bool(t) and t[0][0] != 'yield' and 'yield' not in first))
+    t = [e for e in c.trace if e[0] in ('draw', 'yield', 'loop-head', 'exhausted')]
+    heads = [i for i, e in enumerate(t) if e[0] == 'loop-head']
+    if not heads:
+        return z3.BoolVal(not [e for e in t if e[0] == 'yield'])            # the source ended at once: nothing is yielded
+    before = [e[0] for e in t[:heads[0]]]
+    return z3.BoolVal(before == ['draw'])                                    # ONE value drawn before the first pass, not yielded
 
 
 contract(F, 'Pdiff.__embed__', props=('C13',), params={'self': 'self', 'inval': 'obj'},
